@@ -152,3 +152,22 @@ func plainNewick(text string) bool {
 	}
 	return strings.Count(text, ";") == 1
 }
+
+// runCLIOut is runCLI, except that half of the time the command is told to write its result to a file (-o) and
+// the returned Stdout is then what it left in that file.
+func runCLIOut(c *Ctx, r *rand.Rand, stdin string, args ...string) (cliRes, string) {
+	if r.Intn(2) == 0 {
+		return runCLI(c, stdin, args...), "stdout"
+	}
+	p := filepath.Join(c.Tmp, "cli-result.out")
+	_ = os.Remove(p)
+	res := runCLI(c, stdin, append(append([]string{}, args...), "-o", p)...)
+	b, _ := os.ReadFile(p)
+	if strings.TrimSpace(res.Stdout) != "" && res.Exit == 0 {
+		// something still went to stdout although a file was requested: keep both for the caller's checks
+		res.Stdout = string(b) + res.Stdout
+	} else {
+		res.Stdout = string(b)
+	}
+	return res, "file"
+}
